@@ -229,18 +229,17 @@ Theorem C29_sr25519_rules : forall pk msg sig : list byte,
 Proof. exact sr25519_rules_all. Qed.
 Print Assumptions C29_sr25519_rules.
 
-(* the code as found violated the property in five ways (evaluated witnesses; the definitions
-   ..._prefix model lib/crypto/sr25519 over go-schnorrkel v1.1.0 and the two host functions
-   before the repair): VerifyDeprecated rejected the schnorrkel-0.1.1 vector of sp_core's unit
-   test verify_from_old_wasm_works and accepted a current-scheme signature without marker bit;
-   Verify refused the identity key; ext_crypto_sr25519_verify_version_1 accepted a forged signature
+(* the code as found violated the property (evaluated witnesses; the definitions ..._prefix model
+   lib/crypto/sr25519 over go-schnorrkel v1.1.0 and the two host functions before the repair):
+   VerifyDeprecated rejected the schnorrkel-0.1.1 vector of sp_core's unit test
+   verify_from_old_wasm_works (that it also accepted a current-scheme signature without marker
+   bit is evaluated in C29/VectorsSr25519.v, crust_unmarked_*, outside the closure of this file:
+   coqchk re-evaluates every witness here without the VM); Verify refused the identity key; ext_crypto_sr25519_verify_version_1 accepted a forged signature
    -- its answer depended on the key alone; version 2 accepted a forged signature under the
    all-zero key *)
 Theorem C29_sr25519_prefix_refuted :
   (exists pk msg sig, sr25519_verify_deprecated_ref pk msg sig = true
                       /\ sr25519_verify_deprecated_prefix pk sig msg = VFail)
-  /\ (exists pk msg sig, sr25519_verify_deprecated_ref pk msg sig = false
-                         /\ sr25519_verify_deprecated_prefix pk sig msg = VOk)
   /\ (exists pk msg sig, sr25519_verify_ref pk msg sig = true
                          /\ sr25519_verify_signature_prefix pk sig msg = VErr)
   /\ (exists pk msg sig, sr25519_verify_deprecated_ref pk msg sig = false
